@@ -27,11 +27,13 @@ CONFIG = {
              "maps / sequences / arrays-of-hashes / scalars of every type, (B) one-key documents over 40 keys with "
              "special characters at three nesting shapes, (C) 60 hand-written templates with anchored scalars / maps / "
              "sequences, aliases as map values and list elements, aliased keys, merge keys (single, multiple, "
-             "overriding), sets; (D) seeded random larger documents with anchors and merge keys.  Each document x the "
+             "overriding), sets; (C') 8 documents with anchored booleans (ruamel ScalarBoolean) as values / elements / "
+             "keys / set members x a boolean term alphabet; (D) seeded random larger documents with anchors and merge keys.  Each document x the "
              "nine operators x inverted or not x a term alphabet x {values, keys+values, keys-only} x the four "
              "alias-inclusion modes x expand on/off x both notations (full cross product on B and C for quick-tier "
              "budget reasons sampled by a seeded Latin-style rotation on A and D); a separate stream of malformed "
-             "expressions.  non-trivial = at least one path reported or expected; distinct = distinct "
+             "expressions; (P) process_yaml_file + print_results on 24 documents x 7 expression lists x 8 output-switch "
+             "sets.  non-trivial = at least one path reported or expected (print cases: at least one line printed); distinct = distinct "
              "(document, expression, options)."),
     "trusted_base": [
         "modelled, not verified: yamlpath/commands/yaml_paths.py search_for_paths / yield_children / get_search_term, "
@@ -40,6 +42,9 @@ CONFIG = {
         "the model after loading, with object identities and the merge-key side table read from CommentedMap.merge/_ok)",
         "the re-query of every reported path uses the real Processor.get_nodes (its correctness is C01/C02's subject)",
         "decrypt_eyaml is always off; --refnames (search_anchors) is modelled and tied but outside the property text",
+        "print cases: process_yaml_file runs in-process on a file per document text with stdout captured; the value "
+        "text of --values is an oracle tabulated with the real Processor.get_nodes / jsonify_yaml_data / json.dumps "
+        "on a private copy of the document; --except and multi-document files are not modelled",
     ],
     "assumptions": [
         "the model is the code only as far as the correspondence run shows",
@@ -155,6 +160,9 @@ def hay_texts(h):
     """Candidate values of str(Nodes.typed_value(h)), from the libraries only."""
     from ast import literal_eval
     c = [str(h)]
+    if type(h).__name__ == "ScalarBoolean":
+        # searches.py:42-44: an anchored YAML boolean is searched as bool(h); its text is "True" / "False"
+        c.append(str(bool(h)))
     t = oracles.lit_text_for(h)
     if t is not None:
         try:
@@ -168,7 +176,168 @@ def opts_sexp(o):
     return "(%s)" % " ".join("true" if b else "false" for b in o)
 
 
+# ------------------------------------------------- process_yaml_file / print_results cases
+# A print case is (yaml_text, (expr, ...), sep, opts, (nofile, noexpression, noyamlpath, values, noescape)).
+def is_print(case):
+    return len(case) == 5
+
+
+_FILES = {}
+
+
+def doc_file(text):
+    """The YAML text in a file of its own (process_yaml_file opens the file itself)."""
+    import hashlib
+    import os
+    f = _FILES.get(text)
+    if f is None:
+        d = "/tmp/paths2_docs"
+        os.makedirs(d, exist_ok=True)
+        f = os.path.join(d, hashlib.sha1(text.encode("utf-8")).hexdigest()[:16] + ".yaml")
+        if not os.path.exists(f):
+            tmp = "%s.%d" % (f, os.getpid())
+            with open(tmp, "w", encoding="utf-8") as fh:
+                fh.write(text)
+            os.replace(tmp, f)
+        _FILES[text] = f
+    return f
+
+
+def real_results(data, term, sep, o):
+    E = _E
+    aa = {}
+    E["Anchors"].scan_for_anchors(data, aa)
+    proc = E["EYAMLProcessor"](E["log"], data)
+    return list(E["search_for_paths"](
+        E["log"], proc, data, term, E["seps"][sep],
+        search_values=o[0], search_keys=o[1], search_anchors=o[2],
+        include_key_aliases=o[3], include_value_aliases=o[4],
+        decrypt_eyaml=False, expand_children=o[5], all_anchors=aa))
+
+
+def value_text(data, path):
+    """What print_results appends for --values: built from the real library calls it makes."""
+    import json
+    proc = _E["EYAMLProcessor"](_E["log"], data)
+    try:
+        for nc in proc.get_nodes(path, mustexist=True):
+            node = nc.node
+            if isinstance(node, (dict, list, _E["CommentedSet"])):
+                return "(ok %s)" % hexs("{}".format(json.dumps(_E["Parsers"].jsonify_yaml_data(node))))
+            return "(ok %s)" % hexs("{}".format(str(node).replace("\n", r"\n")))
+        return "(ok %s)" % hexs("")
+    except Exception as e:  # noqa
+        line = exc_line(e)
+        return "ype" if line == "(raise ype)" else "(crash %s)" % type(e).__name__
+
+
+def print_requests(case):
+    text, exprs, sep, o, fl = case
+    st, data = load(text)
+    sx, enc = docenc.encode(data)
+    mt = docenc.merge_table(enc, data)
+    hs = all_scalars(data)
+    terms = []
+    for e in exprs:
+        try:
+            terms.append(_E["get_search_term"](_E["log"], e))
+        except Exception:  # noqa
+            terms.append(None)
+    lit = oracles.lit_table(hs + [t.term for t in terms if t is not None])
+    ret = oracles.re_table([(t.term, x) for t in terms if t is not None and t.method is _E["REGEX"]
+                            for h in hs for x in hay_texts(h)])
+    vt = {}
+    if fl[3]:
+        # Parsers.jsonify_yaml_data (called by print_results for container values) rewrites the document in
+        # place, which turns merged-in keys into own keys: tabulate on a private copy, never on the cached one
+        with warnings.catch_warnings():
+            warnings.simplefilter("ignore")
+            fresh = _E["Parsers"].get_yaml_editor().load(text)
+        for t in terms:
+            if t is None:
+                continue
+            try:
+                for p in real_results(fresh, t, sep, o):
+                    if p.original not in vt:
+                        vt[p.original] = value_text(fresh, p)
+            except Exception:  # noqa
+                pass
+    vts = "(%s)" % " ".join("(%s %s)" % (hexs(k), v) for k, v in vt.items())
+    return ["(paths-print %s %s (%s) %s %s %s %s i0 %s %s %s)" % (
+        sx, mt, " ".join(hexs(e) for e in exprs), sep, opts_sexp(o), opts_sexp(fl), hexs(doc_file(text)), lit, ret, vts)]
+
+
+def run_print(case):
+    """('ok', [lines], exit_state) | ('exc', e)"""
+    import contextlib
+    import io
+    from types import SimpleNamespace
+    from yamlpath.commands.yaml_paths import process_yaml_file
+    text, exprs, sep, o, fl = case
+    E = _E
+    args = SimpleNamespace(search=list(exprs), pathsep=E["seps"][sep], refnames=o[2], decrypt=False, expand=o[5],
+                           except_expression=None, nofile=fl[0], noexpression=fl[1], noyamlpath=fl[2], values=fl[3],
+                           noescape=fl[4])
+    buf = io.StringIO()
+    try:
+        with warnings.catch_warnings():
+            warnings.simplefilter("ignore")
+            with contextlib.redirect_stdout(buf):
+                st = process_yaml_file(args, E["Parsers"].get_yaml_editor(), E["log"], doc_file(text),
+                                       E["EYAMLProcessor"](E["log"], None), o[0], o[1], o[3], o[4], 0)
+    except Exception as e:  # noqa
+        return ("exc", e)
+    out = buf.getvalue()
+    return ("ok", out.split("\n")[:-1] if out else [], st)
+
+
+def print_observe(case):
+    r = run_print(case)
+    if r[0] == "exc":
+        return [exc_line(r[1])]
+    return ["(ok ((%s) %s))" % (" ".join(hexs(l) for l in r[1]), "true" if r[2] == 1 else "false")]
+
+
+def print_judge(case):
+    """"prints exactly the search results": one line per distinct str(path) of the real search results of the
+    accepted expressions, in order; in the paths-only mode the line IS that text."""
+    text, exprs, sep, o, fl = case
+    r = run_print(case)
+    if r[0] == "exc":
+        import re as _re
+        if isinstance(r[1], _re.error):
+            return None
+        return None if fl[3] else "other: process_yaml_file raised %s" % type(r[1]).__name__
+    st, data = load(text)
+    exp = []
+    try:
+        for e in exprs:
+            t = _E["get_search_term"](_E["log"], e)
+            if t is None:
+                continue
+            for p in real_results(data, t, sep, o):
+                s = str(p)
+                if s not in exp:
+                    exp.append(s)
+    except Exception:  # noqa
+        return None
+    lines = r[1]
+    if len(lines) != len(exp):
+        return "print: %d lines printed for %d distinct search results" % (len(lines), len(exp))
+    nofile, noexpr, nopath, values, noescape = fl
+    if nofile and (noexpr or len(exprs) < 2) and not nopath and not values and not noescape:
+        if lines != exp:
+            return "print: printed %r, search results %r" % (lines[:3], exp[:3])
+    elif not nopath and not noescape:
+        for l, s in zip(lines, exp):
+            if s not in l:
+                return "print: line %r does not show result %r" % (l, s)
+    return None
+
+
 def requests(case):
+    if is_print(case):
+        return print_requests(case)
     text, expr, sep, o = case
     st, data = load(text)
     if st != "ok":
@@ -223,6 +392,8 @@ def run_real(case):
 
 
 def observe(case):
+    if is_print(case):
+        return print_observe(case)
     text, expr, sep, o = case
     st, data = load(text)
     if st != "ok":
@@ -478,6 +649,8 @@ def unsafe_on(loc, sep):
 
 def discrepancies(case):
     """List of (tag, message) for every way the real results miss the property."""
+    if is_print(case):
+        return []
     text, expr, sep, o = case
     r = run_real(case)
     if r[0] == "none":
@@ -613,6 +786,8 @@ def judge(case, obs):
     st, _ = load(case[0])
     if st != "ok":
         return None
+    if is_print(case):
+        return print_judge(case)
     d = discrepancies(case)
     if not d:
         return None
@@ -631,6 +806,10 @@ FINDING_PREDS = {
 
 
 def classify(case, obs):
+    if is_print(case):
+        fl = case[4]
+        mode = "".join(c for c, b in zip("FXPLn", fl) if b) or "-"
+        return "print:%s:%s:%dexpr:%s" % (case[2], mode, len(case[1]), "ok" if obs[0].startswith("(ok") else "raise")
     text, expr, sep, o = case
     line = obs[0]
     if line.startswith("(ok (some"):
@@ -651,6 +830,8 @@ def classify(case, obs):
 
 
 def nontrivial(case, obs):
+    if is_print(case):
+        return obs[0].startswith("(ok ((s")
     return obs[0].startswith("(ok (some (") and obs[0] != "(ok (some ()))"
 
 
@@ -659,10 +840,15 @@ def key(case):
 
 
 def describe(case):
+    if is_print(case):
+        return {"yaml": case[0], "exprs": list(case[1]), "sep": case[2], "opts": list(case[3]), "print": list(case[4])}
     return {"yaml": case[0], "expr": case[1], "sep": case[2], "opts": list(case[3])}
 
 
 def undescribe(d):
+    if "print" in d:
+        return (d["yaml"], tuple(d["exprs"]), d["sep"], tuple(bool(x) for x in d["opts"]),
+                tuple(bool(x) for x in d["print"]))
     return (d["yaml"], d["expr"], d["sep"], tuple(bool(x) for x in d["opts"]))
 
 
@@ -818,6 +1004,21 @@ ANCHOR_DOCS = [
 ]
 
 
+# anchored YAML booleans load as ruamel's ScalarBoolean (an int subclass whose str() is "1" / "0");
+# Searches.search_matches compares them as Booleans (C12).  Values, elements, keys, set members.
+SBOOL_DOCS = [
+    "{a: &x true, b: *x, c: true, d: 1}",
+    "{a: &x false, b: *x, c: false, d: 0}",
+    "[&t true, &f false, *t, *f, true, 1, 'true']",
+    "{&k true: a, b: *k}",
+    "{x: {&k false: 1}, y: {*k : true}}",
+    "{a: !!set {&m false, a}, b: *m}",
+    "{a: &x {k: &y true}, b: *x, c: {<<: *x}, d: *y}",
+    "[&t True, &f FALSE, *t]",
+]
+SBOOL_TERMS = ["true", "false", "1", "0", "True", "T", "r", "e$", "^[01]$"]
+
+
 def rand_scalar(rng):
     return rng.choice(SCALARS + ["a", "1", "b"])
 
@@ -901,6 +1102,27 @@ def chunks(tier, seed):
                 for sp in ("dot", "slash"):
                     emit((doc, e, sp, o))
         yield from flush()
+    # (C') anchored booleans (ScalarBoolean) as values, elements, keys, set members
+    for doc in SBOOL_DOCS:
+        for e in exprs(SBOOL_TERMS):
+            for o in (allo if thorough else _take(rng, allo, 6)):
+                emit((doc, e, "dot" if rng.random() < 0.5 else "slash", o))
+        yield from flush()
+    # (P) process_yaml_file + print_results: expression lists (duplicates across expressions, rejected
+    # expressions), the five output switches, both notations
+    pdocs = ANCHOR_DOCS[:12] + ANCHOR_DOCS[16:20] + ANCHOR_DOCS[36:40] + SBOOL_DOCS[:3] + \
+        ["{a: a, b: [a, 1], 'a b': {a: 'a]'}}", "[a, {a: 1}]", "{a: {b: a}, 'a.b': a, 'x/y': [a]}", "a"]
+    elists = [("=a",), ("=a", "=a"), ("=a", "^a", "=1"), ("%a", "x", "=~/a/"), ("=", "=1"), ("!=a", "=a"), ("=~/(/",)]
+    flagsets = [(True, False, False, False, False), (False, False, False, False, False),
+                (True, True, False, False, False), (True, False, False, True, False),
+                (True, False, True, True, False), (False, False, False, True, True),
+                (True, False, False, False, True), (False, True, True, True, False)]
+    for doc in pdocs:
+        for el in elists:
+            for fl in (flagsets if thorough else _take(rng, flagsets, 4)):
+                for o in _take(rng, allo, 3 if thorough else 2):
+                    emit((doc, el, "dot" if rng.random() < 0.5 else "slash", o, fl))
+        yield from flush()
     # (B) special keys
     for doc in special_key_docs():
         for e in ["=a", "!=a", "=~/./", "%a"]:
@@ -952,6 +1174,7 @@ def corpus_chunks():
         ('{"&q": a}', "=a", "dot", d), ('{"a\\\\.b": a}', "=a", "dot", d), ('{"": a}', "=a", "slash", d),   # F-C07-2
         ("a", "=a", "dot", d),                                             # F-C07-3
         ("[&x a, &x b, *x]", "=b", "dot", a),                              # F-C07-4
+        ("{a: {k: &w b}, z: *w}", "<c", "dot", (True, True, False, False, False, False)),   # C07_alias_excluded_refuted
         ("[!!set {x, y}, x]", "=x", "dot", d),                             # fixed d9ff2cf
         ("{a: &x {k: v}, b: *x}", "=v", "dot", d), ("{a: &x {k: v}, b: *x}", "=v", "slash", a),   # fixed da0a3a5
         ("{x: {&k a: 1}, y: {*k : 2}}", "=a", "dot", (True, True, False, False, False, False)),   # fixed 0862173
